@@ -373,22 +373,28 @@ class Prop:
     ID = "C18"
     LEVEL = "exploration"
     COQ_HEADER = ""; CHECK_FN = ""
-    RULE = ("batch sizes 1..4, 2..4 further modes of sizes 1..3, explicit integer batch cores; enumerated format lattice "
-            "({TT,CP}x{U,no U} per mode) for N=2 on one and on both operands, named pure/hybrid formats and seeded mixes for "
-            "N=3,4; ranks 1..3 (> size included), one all-zero element, identical elements; operations: torch(), construction "
-            "from a dense stack (no limit / ranks_tt / ranks_tucker / both / ranks_cp on rank-1 data / eps; svd and eig), "
-            "+ - * on format pairs, scalar ops (7 forms, scalars 0,1,-1,2,-3,1/2 as int/float/np/torch), round_tt / "
-            "round_tucker (no limit, rmax int/list) / round, orthogonalize(mu), left/right_orthogonalize, getitem (int / "
-            "slice / None / Ellipsis / index-array run on the non-batch modes; int / slice / list / implicit selection on the "
-            "batch mode; malformed keys), mixed batch/non-batch and unequal batch sizes, 31 unsupported operations, 14 derived "
-            "operations. Non-trivial = no error and a non-zero result; distinct = distinct (op, formats, B, shape, argument "
-            "signature).")
+    RULE = ("batch sizes 1..4, 2..4 further modes of sizes 1..3 (up to 5 for the factor-level product), explicit integer batch "
+            "cores; enumerated format lattice ({TT,CP}x{U,no U} per mode) for N=2 on one and on both operands, named pure/hybrid "
+            "formats and seeded mixes for N=3,4; ranks 1..3 (> size included), one all-zero element, identical elements; "
+            "operations: torch(); construction from a dense stack (no limit / ranks_tt / ranks_tucker / both / ranks_cp=1 on "
+            "rank-1 stacks / ranks_cp=2 on stacks of identical elements / eps; svd and eig); + - * on format pairs; 7 scalar forms "
+            "with scalars 0,1,-1,2,-3,1/2 as int/float/np.float64/0-d torch; round_tt / round_tucker (no limit, rmax int/list, "
+            "steered so that ~half truncate and ~80% keep no null singular value) / round; orthogonalize(mu, negative included), "
+            "left/right_orthogonalize; getitem (int / slice / None / Ellipsis / index-array run on the non-batch modes; int / slice "
+            "/ list / implicit selection on the batch mode; malformed keys); unequal batch sizes and batch-with-non-batch operands; "
+            "31 operations without batch support; 17 derived operations. Non-trivial = no error and a non-zero result; distinct = "
+            "distinct (op, formats, B, shape, argument signature).")
     TRUSTED = ["NumPy float64 linear algebra (SVD) for the truncation oracles; exact integer arithmetic of float64 on the small inputs",
-               "the rank bookkeeping sim_* in this file is used only to tag cases for the open finding C18-round-tt-null, never to decide agreement"]
-    ASSUMPTIONS = ["rank-limited construction / rounding is compared with the sequential truncated-SVD specification only when no "
-                   "truncation falls into a cluster of equal singular values (otherwise only shape and finiteness are checked)",
-                   "CP construction (ALS) is checked only on stacks of exactly rank-1 elements with ranks_cp=1",
-                   "batch tensors with a single non-batch mode are outside the quantifier and not generated"]
+               "the shape bookkeeping sim_* in this file only TAGS cases for the open findings round-tt-null / eig-tall-factor, it never decides agreement",
+               "ranks_cp=2 cases compare each batch element with the ordinary constructor run on the same data (differential, not an independent oracle)"]
+    ASSUMPTIONS = ["rank-limited construction / rounding is compared with the sequential truncated-SVD specification (Tucker modes N-1..0, "
+                   "then TT unfoldings N-1..1) only when no truncation falls into a cluster of equal singular values; otherwise only shape, "
+                   "rank limits and finiteness are checked (such cases are re-drawn, they are rare)",
+                   "CP construction (ALS, a heuristic) is checked for exact recovery on stacks of rank-1 elements, and against the ordinary "
+                   "constructor on stacks of identical elements; general-rank CP on stacks of different elements is not checked",
+                   "round(eps) and construction with eps raise on every batch tensor today (relative_error has no batch support); the cases "
+                   "accept an error or a result within eps of every element",
+                   "batch tensors with a single non-batch mode and broadcasting between batch operands are outside the quantifier and not generated"]
     THEOREMS = []
 
     # ------------------------------------------------------------------ generation
@@ -444,7 +450,9 @@ class Prop:
             want_clean = rng.random() < 0.8      # most cases: no kept null singular value (open finding round-tt-null)
             want_trunc = rng.random() < 0.5
             for attempt in range(40):
-                B = rB(); N = rng.randint(2, 4); shape = rshape(N, 1, 3 if N < 4 else 2)
+                B = rB(); N = rng.randint(2, 4); shape = rshape(N, 1, 3 if N < 4 or rng.random() < 0.5 else 2)
+                if rng.random() < 0.15:
+                    shape = rshape(N, 2, 3)          # every mode > 1: both branches of the full-rank construction at inner modes
                 lowrank = rng.random() < 0.3
                 X = dense_stack(B, shape, lowrank)
                 kw = {}
